@@ -59,7 +59,16 @@ def main():
     if src != out_dir:
         for f in ('patch.diff', 'demo.diff'):
             shutil.copy(os.path.join(src, f), os.path.join(out_dir, f))
-    meta['verified_by_framework_author'] = res.get('confirm_detail')
+    prev = {}
+    try:
+        prev = json.load(open(os.path.join(out_dir, 'meta.json')))
+    except Exception:
+        pass
+    for k_ in ('verified_by_framework_author', 'rebased', 'note_demo', 'base_commit_of_patch', 'what_was_run', 'note'):
+        if k_ in prev and k_ not in meta:
+            meta[k_] = prev[k_]
+    if res.get('confirm_detail') is not None:
+        meta['verified_by_framework_author'] = res.get('confirm_detail')
     meta.setdefault('check_results', {}).update(res['checks'])
     json.dump(meta, open(os.path.join(out_dir, 'meta.json'), 'w'), indent=1)
     print(json.dumps(res)[:400])
